@@ -173,7 +173,8 @@ def go {σ : Type} (I : Impl σ) (fin : Fin) : σ → Bool → Srv → List COp 
   | s, false, .done, .closeSend :: cs =>
       cev .closed (go I fin s true .done cs)
   | _, _, .done, _ :: _ => stuckT
-  -- the call was aborted by the client
+  -- the call was aborted by the client: only the terminal RecvMsg is defined on both transports
+  -- (grpc-go's Header() after a cancel depends on whether the HEADERS frame was already processed)
   | _, _, .aborted, [] => endT
   | s, cc, .aborted, .recv :: cs =>
       match I.terminal s with
